@@ -78,7 +78,7 @@ def run_pipeline(b, rng, root, struct_orient=False, fixed_text=None, mfe_hook=No
                 f.write(fixed_text)
         try:
             with quiet():
-                pc.compiler(b.entry, [], pil, save, fixed, True, list(b.includes) if b.includes else None)
+                pc.compiler(b.entry, list(getattr(b, "args", [])), pil, save, fixed, True, list(b.includes) if b.includes else None)
         except BaseException as e:
             if isinstance(e, KeyboardInterrupt): raise
             raise Stage("compile", e)
